@@ -278,6 +278,10 @@ async def one_call(C: Ctx, case: dict[str, Any]) -> None:
         caller_probe = _probe()
         # ---- reference: plain call ----------------------------------------------------------------------------------
         ctl_ref: dict[str, Any] = {"raise": hand}
+        if outcome == "result-generator":
+            # the function hands back a (lazy) generator object: it is the result - untouched, unconsumed, the very object
+            ctl_ref["ret"] = (n * n for n in (1, 2, 3))
+            R.count("lazy_iterator_results")
         if outcome.startswith("awaitable"):
             if outcome == "awaitable-future":
                 ret: Any = asyncio.get_running_loop().create_future()
@@ -652,10 +656,10 @@ def cases(tier: str, rng: random.Random):  # noqa: ANN201
             if fname == "method" and deco in ("wrap_async-of-async", "traced-async", "asynchronous-call"):
                 continue
             nforms = len(METHOD_FORMS if fname == "method" else FORMS[fname])
-            for form_i, outcome, depth in itertools.product(range(nforms), ("value", "raise", "raise-base", "cancelled", "awaitable-future", "awaitable-object", "raise-timeout", "raise-futures-cancelled", "raise-futures-invalid"), depths):
+            for form_i, outcome, depth in itertools.product(range(nforms), ("value", "raise", "raise-base", "cancelled", "awaitable-future", "awaitable-object", "raise-timeout", "raise-futures-cancelled", "raise-futures-invalid", "result-generator"), depths):
                 if outcome == "cancelled" and deco != "traced-async":
                     continue
-                if outcome in ("raise-timeout", "raise-futures-cancelled", "raise-futures-invalid") and (depth > 1 or form_i > 1):
+                if outcome in ("raise-timeout", "raise-futures-cancelled", "raise-futures-invalid", "result-generator") and (depth > 1 or form_i > 1):
                     continue
                 if outcome.startswith("awaitable") and (depth not in (0, 2) or form_i > 1):
                     continue
